@@ -275,7 +275,75 @@ def process_crash(src, n=3):
     src.check('no-internal-error', not core.logger.tracebacks(), log=core.logger.tracebacks()[:1])
 
 
+@rigged
+def loss_during_start_sequence(src, n=3):
+    """H06f: the instance is lost while a start sequence of the application is in progress: the Master has re-planned
+    an application in major failure; the start of its required first process is pending on the instance that is lost,
+    and a process sequenced later runs only there - its running_failure_strategy still applies"""
+    from supvisors.ttypes import RunningFailureStrategies as RFS, StartingFailureStrategies as SFS
+    core = FC.operational(n)
+    ids = core.ids
+    sim = Sim(core)
+    for i in ids:
+        core.add_process(i, 'app', 'first', PS.STOPPED)
+        core.add_process(i, 'app', 'later', PS.STOPPED)
+    app = core.context.applications['app']
+    strat = src.pick('strategy', ['RESTART_PROCESS', 'CONTINUE'])
+    sfs = src.pick('starting_failure_strategy', ['ABORT', 'CONTINUE'])
+    adapter.set_rules(app.rules, managed=True, start_sequence=1, starting_failure_strategy=SFS[sfs])
+    adapter.set_rules(app.processes['first'].rules, start_sequence=1, required=True, identifiers=[ids[1], ids[2]],
+                      starting_failure_strategy=SFS[sfs], expected_load=10)
+    adapter.set_rules(app.processes['later'].rules, start_sequence=2, running_failure_strategy=RFS[strat],
+                      expected_load=10)
+    core.finalize_rules()
+    core.process_event(ids[1], 'app', 'later', PS.STARTING)
+    core.process_event(ids[1], 'app', 'later', PS.RUNNING)
+    core.process_event(ids[1], 'app', 'first', PS.FATAL, expected=False, spawnerr='crash')
+    src.check('setup-major-failure', bool(app.major_failure), sig='setup')
+    core.rpc_handler.out.clear()
+    sim.cursor = 0
+    core.starter.start_applications()
+    reqs = sim.new_requests()
+    src.check('setup-start-pending-on-the-instance', reqs == [('start', ids[1], 'app:first')], sig='setup', reqs=reqs)
+    how = src.pick('how', ['xmlrpc-failure', 'silence'])
+    if how == 'xmlrpc-failure':
+        core.fsm.on_instance_failure(core.context.instances[ids[1]])
+    requests = []
+    for _ in range(8):
+        FC.cluster_round(core, silent=[ids[1]])
+        for kind, ident, ns in sim.new_requests():
+            requests.append((kind, ident, ns))
+            src.check('request-to-a-live-instance', ident != ids[1], sig=kind, request=(kind, ident, ns))
+            if kind == 'start':
+                sim.ack_start(ident, ns)
+            else:
+                sim.ack_stop(ident, ns)
+    later = app.processes['later']
+    running = sorted(later.running_identifiers)
+    starts = [ns for k, _, ns in requests if k == 'start']
+    ctx = dict(sig=f'{strat}:starting-failure-{sfs}', requests=requests[:6], running=running)
+    if sfs == 'CONTINUE':
+        # the start sequence itself goes on after the failed start: the process is left to its planned job
+        src.reach('left-to-the-sequence')
+        src.check('started-once-by-the-sequence', len(running) == 1 and running[0] != ids[1]
+                  and starts.count('app:later') == 1, **ctx)
+    elif strat == 'RESTART_PROCESS':
+        # the start sequence is aborted; the application is left fully stopped: RESTART_PROCESS becomes
+        # RESTART_APPLICATION, which can place the first process on the other permitted instance
+        src.reach('restart-process')
+        src.check('lost-process-running-once-on-a-survivor', len(running) == 1 and running[0] != ids[1]
+                  and starts.count('app:later') == 1, **ctx)
+    else:
+        src.reach('continue')
+        src.check('continue-starts-nothing-of-it', 'app:later' not in starts and not running, **ctx)
+    src.check('no-job-left', not core.starter.in_progress() and not core.stopper.in_progress(), **ctx)
+    src.check('no-internal-error', not core.logger.tracebacks(), log=core.logger.tracebacks()[:1])
+
+
 HARNESSES = [
+    Harness('H06f', loss_during_start_sequence, quick={'n': 3}, thorough={'n': 3},
+            reach=('restart-process', 'continue', 'left-to-the-sequence'), timeout=(60, 120),
+            doc='instance lost during a start sequence: the strategy of a process sequenced later still applies'),
     Harness('H06e', process_crash, quick={'n': 3}, thorough={'n': 3}, reach=('master', 'non-master',
             'still-running-elsewhere', 'process-level-strategy', 'stop-application', 'restart-application'),
             timeout=(100, 300), doc='crash of one copy: strategy only if the process ran only there, Master only'),
